@@ -173,6 +173,8 @@ void MML_Input::mml_transpose()
 					str.push_back(c);
 			}
 			while(c && c != '}');
+			if(c != '}')
+				parse_error("unterminated key signature");
 			track->set_key_signature(str.c_str());
 		}
 		catch(std::invalid_argument&)
